@@ -269,7 +269,7 @@ class ExprMixin:
                     out.append(ok(a / b, s2))
                 else:
                     for x in (a, b):
-                        if is_sym(x) and z3.is_int(x):
+                        if is_sym(x) and z3.is_int(x) and self.ieee_checks:
                             self.oblige(s2, f'ieee.operand_exact@{line}', z3.And(x > -2**53, x < 2**53), kind='safety', line=line)
                     out.append(ok(to_real(a) / to_real(b), s2))
             return out
